@@ -988,9 +988,11 @@ def strip_for_tlc(t: dict) -> dict:
 
 def signature_of(t: dict, v: Any) -> str:
     ev = t["events"][min(v.pos, len(t["events"]) - 1)]
+    if v.clause in NAMED_DEVIATIONS:
+        # one signature per named deviation and entry point, so that each gets its own replay file
+        where = {"ser": "MultipartWriter.write", "op": "StreamWriter"}.get(ev["ev"]) or ev.get("recipe", {}).get("api", "?")
+        return f"{v.clause} via {where}: {NAMED_DEVIATIONS[v.clause]}"
     if ev["ev"] == "ser":
-        if v.clause == "PartialBodyOnRefusal":
-            return f"{v.clause} in {ev['scen']}"
         return f"{v.clause} in {ev['scen']} with classes {'+'.join(sorted(set(ev['cls'])))}"
     if ev["ev"] == "msg":
         r = ev.get("recipe", {})
@@ -1100,9 +1102,14 @@ def ops_cfg(maxops: int, maxsize: int, lengths: Sequence[int], mut: str = "") ->
 
 # scenarios that get every one of the 0x110000 code points in the thorough tier (one per distinct
 # validation / encoding site); the others get the whole BMP + a seeded sample of the astral planes
-PRIMARY = {"client.method", "client.target", "client.target-encoded", "client.header-name", "client.header-value",
+# (client.method and the cookie names are white-lists: everything outside the token set is refused)
+PRIMARY = {"client.target", "client.target-encoded", "client.header-name", "client.header-value",
            "client.cookie-value", "server.reason", "server.set_cookie-value", "server.set_cookie-path",
            "multipart.part-header-value", "formdata.name", "formdata.filename"}
+
+# positions guarded by a white-list (token characters only): every other code point is refused alone, so a
+# block never passes; the thorough tier walks 0x800..0x1FFF singly there and samples the rest
+WHITELISTS = {"client.method", "client.cookie-name", "server.set_cookie-name", "client.multipart-boundary"}
 
 FAST_PATHS = ["WriteCoalesced", "WriteEofCoalesced", "WriteEofCoalescedZ", "SetEofCoalesced"]
 
@@ -1183,9 +1190,8 @@ def run_part_a(ctx: Ctx, kit: Kit, scen: List[Scenario]) -> None:
             ev = sc.event(kit, [cp], tbl=False)
             c[ev["out"]] += 1
             acc.add(ser_trace(ev, "sweep"))
-        if sc.special == "boundary" and not ctx.quick:
-            continue                         # boundaries are ASCII-only and at most 70 characters
-        ranges = ctx.pick([(single_below, 0x7FF)], full if sc.name in PRIMARY else bmp)
+        ranges = ctx.pick([(single_below, 0x7FF)],
+                          full if sc.name in PRIMARY else [(0x800, 0x1FFF)] if sc.name in WHITELISTS else bmp)
         for lo, hi in ranges:
             for blk in G.blocks(lo, hi, ctx.pick(64, 128)):
                 stack = [blk]
